@@ -1,17 +1,321 @@
+// Sequential part of the C12 harness: the real creator stack
+// NewSharedBuildDirectoryCreator(NewCleanBuildDirectoryCreator(
+// NewRootBuildDirectoryCreator(root), idleInvoker), counter) as wired in
+// cmd/bb_worker/main.go, over an in-memory BuildDirectory whose calls fail
+// according to the flags of the current operation, with a directory
+// cleaner (empties the root) that counts its invocations.
 package main
 
 import (
+	"context"
 	"encoding/json"
-	"fmt"
+	"os"
+	"sync/atomic"
 
+	remoteexecution "github.com/bazelbuild/remote-apis/build/bazel/remote/execution/v2"
+	"github.com/buildbarn/bb-remote-execution/pkg/builder"
+	"github.com/buildbarn/bb-remote-execution/pkg/cleaner"
+	"github.com/buildbarn/bb-storage/pkg/digest"
+	"github.com/buildbarn/bb-storage/pkg/filesystem/path"
+
+	"google.golang.org/grpc/codes"
+	"google.golang.org/grpc/status"
+
+	g "verif/harness/internal/gallina"
 	"verif/harness/internal/hcommon"
 	"verif/harness/internal/rng"
 )
 
-type dhistory struct {
-	Mode string `json:"mode"`
+type dop struct {
+	K    string `json:"k"` // get, close, write
+	Slot int    `json:"s"`
+	Dig  int    `json:"d,omitempty"`  // get: 0 = none (counter name), i>0 = hashes[i-1]
+	File string `json:"f,omitempty"`  // write
+	Fl   []bool `json:"fl,omitempty"` // get: clean,mkdir,enter,remove,clean2; close: child,removeall,clean
 }
 
-func generateDirs(r *rng.R, thorough bool) json.RawMessage { return generateIdle(r, thorough, 1) }
+type dhistory struct {
+	Mode string `json:"mode"`
+	Ops  []dop  `json:"ops"`
+}
 
-func executeDirs(h dhistory) (string, *hcommon.Info, error) { return "", nil, fmt.Errorf("not yet") }
+// Two hashes share their first 16 characters (the creator uses only those),
+// one consists of decimal digits only (the name space counter names live in).
+var hashes = []string{
+	"aaaaaaaaaaaaaaaa000000000000000000000000000000000000000000000000",
+	"aaaaaaaaaaaaaaaa111111111111111111111111111111111111111111111111",
+	"0123456789012345222222222222222222222222222222222222222222222222",
+	"bbbbbbbbbbbbbbbbbbbbbbbbbbbbbbbbbbbbbbbbbbbbbbbbbbbbbbbbbbbbbbbb",
+}
+
+type node struct {
+	name     string
+	children []*node
+}
+
+func (n *node) find(name string) (int, *node) {
+	for i, c := range n.children {
+		if c.name == name {
+			return i, c
+		}
+	}
+	return -1, nil
+}
+
+type dharness struct {
+	root   *node
+	fl     []bool // flags of the current operation
+	isGet  bool
+	cleans int // cleaner invocations in the current operation
+}
+
+func (h *dharness) flag(i int) bool { return i < len(h.fl) && h.fl[i] }
+
+var errInjected = status.Error(codes.Unavailable, "injected directory failure")
+
+// memDirectory implements builder.BuildDirectory; only the methods the
+// creators use do anything.
+type memDirectory struct {
+	builder.BuildDirectory
+	h      *dharness
+	n      *node
+	atRoot bool
+}
+
+func (d *memDirectory) Mkdir(name path.Component, perm os.FileMode) error {
+	if d.atRoot && d.h.flag(1) {
+		return errInjected
+	}
+	if _, c := d.n.find(name.String()); c != nil {
+		return status.Error(codes.AlreadyExists, "exists")
+	}
+	d.n.children = append(d.n.children, &node{name: name.String()})
+	return nil
+}
+
+func (d *memDirectory) EnterBuildDirectory(name path.Component) (builder.BuildDirectory, error) {
+	if d.atRoot && d.h.flag(2) {
+		return nil, errInjected
+	}
+	_, c := d.n.find(name.String())
+	if c == nil {
+		return nil, status.Error(codes.NotFound, "no such directory")
+	}
+	return &memDirectory{h: d.h, n: c}, nil
+}
+
+func (d *memDirectory) Remove(name path.Component) error {
+	if d.atRoot && d.h.flag(3) {
+		return errInjected
+	}
+	i, c := d.n.find(name.String())
+	if c == nil {
+		return status.Error(codes.NotFound, "no such directory")
+	}
+	if len(c.children) > 0 {
+		return status.Error(codes.FailedPrecondition, "not empty")
+	}
+	d.n.children = append(d.n.children[:i:i], d.n.children[i+1:]...)
+	return nil
+}
+
+func (d *memDirectory) RemoveAll(name path.Component) error {
+	if d.atRoot && d.h.flag(1) {
+		return errInjected
+	}
+	i, c := d.n.find(name.String())
+	if c == nil {
+		return status.Error(codes.NotFound, "no such directory")
+	}
+	d.n.children = append(d.n.children[:i:i], d.n.children[i+1:]...)
+	return nil
+}
+
+func (d *memDirectory) Close() error {
+	if !d.atRoot && d.h.flag(0) {
+		return status.Error(codes.Aborted, "injected close failure")
+	}
+	return nil
+}
+
+func (h *dharness) cleaner(ctx context.Context) error {
+	h.cleans++
+	var fail bool
+	if h.isGet {
+		if h.cleans == 1 {
+			fail = h.flag(0)
+		} else {
+			fail = h.flag(4)
+		}
+	} else {
+		fail = h.flag(2)
+	}
+	if fail {
+		return status.Error(codes.DataLoss, "injected cleaner failure")
+	}
+	h.root.children = nil
+	return nil
+}
+
+func (h *dharness) listing() string {
+	var items []string
+	for _, c := range h.root.children {
+		var fs []string
+		for _, f := range c.children {
+			fs = append(fs, g.Str(f.name))
+		}
+		items = append(items, "("+g.Str(c.name)+", "+g.List(fs)+")")
+	}
+	return g.List(items)
+}
+
+func executeDirs(hist dhistory) (string, *hcommon.Info, error) {
+	info := hcommon.NewInfo()
+	h := &dharness{root: &node{}}
+	inv := cleaner.NewIdleInvoker(h.cleaner)
+	var counter atomic.Uint64
+	creator := builder.NewSharedBuildDirectoryCreator(
+		builder.NewCleanBuildDirectoryCreator(
+			builder.NewRootBuildDirectoryCreator(&memDirectory{h: h, n: h.root, atRoot: true}),
+			inv),
+		&counter)
+	slots := map[int]builder.BuildDirectory{}
+	var ops, obs []string
+	sawFailAfterMkdir, sawTwoOpen := false, false
+	ctx := context.Background()
+	for _, o := range hist.Ops {
+		slot := ((o.Slot % 4) + 4) % 4
+		h.cleans = 0
+		h.fl = o.Fl
+		var opTerm, out string
+		switch o.K {
+		case "get":
+			h.isGet = true
+			digTerm := "None"
+			var dp *digest.Digest
+			if o.Dig > 0 {
+				hs := hashes[(o.Dig-1)%len(hashes)]
+				d := digest.MustNewDigest("verif", remoteexecution.DigestFunction_SHA256, hs, 42)
+				dp = &d
+				digTerm = g.Some(g.Str(hs))
+			}
+			opTerm = g.App("DGet", g.Nat(slot), digTerm,
+				g.App("mkGF", g.Bool(h.flag(0)), g.Bool(h.flag(1)), g.Bool(h.flag(2)), g.Bool(h.flag(3)), g.Bool(h.flag(4))))
+			if _, busy := slots[slot]; busy {
+				out = "DSkip"
+				break
+			}
+			d, p, err := creator.GetBuildDirectory(ctx, dp)
+			if err != nil {
+				out = g.App("DErr", g.N(uint64(status.Code(err))))
+				if h.flag(2) && !h.flag(1) {
+					sawFailAfterMkdir = true
+				}
+			} else {
+				slots[slot] = d
+				out = g.App("DGot", g.Str(p.GetUNIXString()))
+				if len(slots) >= 2 {
+					sawTwoOpen = true
+				}
+			}
+		case "close":
+			h.isGet = false
+			opTerm = g.App("DClose", g.Nat(slot),
+				g.App("mkCF", g.Bool(h.flag(0)), g.Bool(h.flag(1)), g.Bool(h.flag(2))))
+			d, open := slots[slot]
+			if !open {
+				out = "DSkip"
+				break
+			}
+			delete(slots, slot)
+			err := d.Close()
+			out = g.App("DClosed", g.N(uint64(status.Code(err))))
+			if err != nil {
+				sawFailAfterMkdir = true
+			}
+		case "write":
+			opTerm = g.App("DWrite", g.Nat(slot), g.Str(o.File))
+			h.fl = nil
+			d, open := slots[slot]
+			if !open {
+				out = "DSkip"
+				break
+			}
+			err := d.Mkdir(path.MustNewComponent(o.File), 0o777)
+			out = g.App("DWrote", g.Bool(err == nil))
+		default:
+			continue
+		}
+		info.Events++
+		info.Ops[o.K]++
+		if len(out) > 5 && out[1:5] == "DGot" {
+			info.Outs["DGot"]++
+		} else {
+			info.Outs[out]++
+		}
+		if h.cleans > info.Extra["max_cleans_per_op"] {
+			info.Extra["max_cleans_per_op"] = h.cleans
+		}
+		ops = append(ops, opTerm)
+		obs = append(obs, g.App("mkObs", out, g.Nat(h.cleans), h.listing()))
+	}
+	info.Nontrivial = sawFailAfterMkdir && sawTwoOpen
+	return g.App("CDirs", g.App("mkDCase", g.List(ops), g.List(obs))), info, nil
+}
+
+func generateDirs(r *rng.R, thorough bool) json.RawMessage {
+	n := 10 + r.Intn(31)
+	if thorough {
+		n = 30 + r.Intn(120)
+	}
+	h := dhistory{Mode: "dirs"}
+	files := []string{"x", "y", "input_root"}
+	flags := func(k int) []bool {
+		fl := make([]bool, k)
+		for i := range fl {
+			fl[i] = r.Chance(12)
+		}
+		return fl
+	}
+	// guidance only: which slots are probably open (a get may fail)
+	open := map[int]bool{}
+	pick := func(want bool) int {
+		var c []int
+		for sl := 0; sl < 4; sl++ {
+			if open[sl] == want {
+				c = append(c, sl)
+			}
+		}
+		if len(c) == 0 || r.Chance(8) {
+			return r.Intn(4)
+		}
+		return c[r.Intn(len(c))]
+	}
+	for i := 0; i < n; i++ {
+		var o dop
+		switch x := r.Intn(100); {
+		case x < 45:
+			o.K = "get"
+			o.Slot = pick(false)
+			if r.Chance(55) {
+				o.Dig = 1 + r.Intn(len(hashes))
+			}
+			o.Fl = flags(5)
+			if !o.Fl[0] && !o.Fl[1] && !o.Fl[2] {
+				open[o.Slot] = true
+			}
+		case x < 80:
+			o.K = "close"
+			o.Slot = pick(true)
+			o.Fl = flags(3)
+			open[o.Slot] = false
+		default:
+			o.K = "write"
+			o.Slot = pick(true)
+			o.File = files[r.Intn(len(files))]
+		}
+		h.Ops = append(h.Ops, o)
+	}
+	data, _ := json.Marshal(h)
+	return data
+}
